@@ -171,6 +171,9 @@ func cmdCheck(args []string) int {
 			sem <- struct{}{}
 			fr := verifyFunc(p, c)
 			<-sem
+			if os.Getenv("GOVC_TIMING") != "" {
+				fmt.Printf("gen %s: %.2fs lines=%d obls=%d\n", shortKey(c.Key), fr.GenTime, func() int { if fr.Gen != nil { return len(fr.Gen.lines) }; return 0 }(), len(fr.Obls))
+			}
 			results[i] = fr
 			// solve obligations
 			var ow sync.WaitGroup
@@ -180,7 +183,17 @@ func cmdCheck(args []string) int {
 					defer ow.Done()
 					q := buildQuery(fr.Gen, o)
 					o.Query = ""
-					r := solve(q, dir, o.Name, timeout, *tier == "thorough")
+					prefer := "cvc5"
+					if fr.Gen != nil && fr.Gen.mode != MInt {
+						prefer = "z3-new"
+					}
+					var r solveResult
+					if o.Expect == "sat" {
+						// vacuity guard: only a definite `unsat` is a failure; one solver, short budget
+						r = solveCover(q, dir, o.Name)
+					} else {
+						r = solve(q, dir, o.Name, timeout, *tier == "thorough", prefer)
+					}
 					o.Status, o.Backend, o.Time, o.Output = r.status, r.backend, r.time, r.output
 					if len(q) > 0 {
 						o.Model = fmt.Sprintf("%d bytes", len(q))
